@@ -107,9 +107,38 @@ def fixed_histories():
     return out
 
 
+def matrix_histories(tier):
+    """observation x mutation matrix on one rich circuit: [build; observe O1; mutate M; duration; stim; acq; copy; listing] for every
+    kind of observation O1 and every kind of mutation M (including none).  The circuit holds the shapes in which an earlier query
+    has mattered: two parallel first blocks of unequal length with an operation following the first of them, a repeated block that
+    starts with a plain operation and contains a repeated block, a registry-timed wait, a measured repeated block."""
+    env = {'READOUT': 2.0, 'MICROWAVE': 1.0, 'FLUX': 1.0, 'RESET': 2.0}
+    env2 = {'READOUT': 5.0, 'MICROWAVE': 3.0, 'FLUX': 0.5, 'RESET': 1.0}
+    reg = {'k0': 1.0, 'k1': 2.0}
+    w = lambda q, d: L('Wait', [q], dur=['fixed', d], ch='ALL')
+    base = [['sub', 1, [L('Rx180', [0])]],
+            ['sub', 1, [L('Rx180', [1]), L('Rx180', [1]), L('Rx180', [1])]],
+            ['add', L('Hadamard', [0])],
+            ['sub', 3, [w(2, 1.0), {'t': 'sub', 'reps': 2, 'body': [w(2, 1.0)]}]],
+            ['add', L('Wait', [2], dur=['reg', 'k0'], ch='ALL')],
+            ['sub', 2, [L('Rx90', [0]), L('DispersiveMeasure', [0], tag='a')]],
+            ['add', L('DispersiveMeasure', [1], tag='')]]
+    muts = {'none': [], 'mods': [['mods']], 'flatten': [['flatten']], 'add': [['add', L('Rx180', [0])]],
+            'grow': [['grow', 1, w(1, 2.0)]], 'setreg': [['setreg', 'k0', 5.0]], 'global': [['global', env2]],
+            'global-unglobal': [['global', env2], ['unglobal']], 'mods-flatten': [['mods'], ['flatten']]}
+    tail = [['obs', o] for o in ('duration', 'stim', 'acq', 'copy', 'listing')]
+    out = []
+    for o1 in ('listing', 'duration', 'acq', 'stim', 'copy', 'plot'):
+        for name, m in muts.items():
+            if tier == 'quick' and o1 == 'plot' and name not in ('none', 'mods', 'global-unglobal'):
+                continue
+            out.append({'cmds': json.loads(json.dumps(base + [['obs', o1]] + m + tail)), 'env': env, 'reg': reg, 'matrix': f'{o1}/{name}'})
+    return out
+
+
 def gen_cases(rng, tier):
     n = 110 if tier == 'quick' else 2000
-    return fixed_histories() + [gen_history(rng, rng.choice([6, 9, 14]), plots=(i % 3 == 0)) for i in range(n)]
+    return fixed_histories() + matrix_histories(tier) + [gen_history(rng, rng.choice([6, 9, 14]), plots=(i % 3 == 0)) for i in range(n)]
 
 
 # ------------------------------------------------------------------------------------------------ Coq printing
@@ -237,6 +266,8 @@ def nontrivial(c, o):
 
 
 def kind(c):
+    if c.get('matrix'):
+        return 'matrix'
     ks = {cmd[0] for cmd in c['cmds']}
     return '+'.join(sorted(ks & {'mods', 'flatten', 'setreg', 'global', 'unglobal', 'grow', 'sub'})) or 'adds-only'
 
